@@ -56,7 +56,7 @@ Layout == [
     FRaw(16, "signature"), FIid("u32", "version", "u31"), FIid("i32", "nEntries", "u31"), FPad(8),
     FIid("i32", "cdate", "u31"), FIid("i32", "mdate", "u31"), FIid("i32", "adate", "u31"), FPad(20) >>,
   Entry |-> <<
-    FIid("u32", "type", "u31"), FIid("u32", "format", "u31"), FIid("i32", "offset", "u31"), FIid("i32", "size", "u31"),
+    FEnum("u32", "type", 0..16), FIid("u32", "format", "u31"), FIid("i32", "offset", "u31"), FIid("i32", "size", "u31"),
     FIid("i32", "cdate", "u31"), FIid("i32", "mdate", "u31"), FIid("i32", "adate", "u31"), FPad(4), FStr(256, "comment") >>,
 
   Data3D |-> <<
